@@ -10,7 +10,7 @@ def run(tier, seed):
     chk = vlib.Check(PID, tier, seed)
     quick = tier == "quick"
     vlib.tlc_check(chk, "H_Cond abstract object, exhaustive", os.path.join(SPEC, "H_Cond.tla"), os.path.join(SPEC, "H_CondMC.cfg"), timeout=600)
-    vlib.history_check(chk, "d_sync", ["cond"], "H_Cond", quick, seed, what="cond history violates atomic release-and-wait / exact wake-ups / mutex held at return")
+    vlib.history_check(chk, "d_sync", ["cond", "condtimed"], "H_Cond", quick, seed, what="cond history violates atomic release-and-wait / exact wake-ups / mutex held at return")
     chk.assumptions += ["serialized mode explores sequentially consistent interleavings of the hooked atomic operations",
                         "scenario scripts follow a discipline under which a correct implementation terminates; a run that ends in deadlock/stuck/budget is reported as a progress violation"]
     return chk.finish()
